@@ -1,4 +1,5 @@
 import MontePyVerif.Model.ListNode
+import MontePyVerif.Model.ShortcutParse
 import MontePyVerif.Spec.Shortcut
 import MontePyVerif.Gen.Shortcuts
 /-!
@@ -11,8 +12,13 @@ Proved here (all inputs, no bound on sizes):
 * `C08_run_append`, `C08_spec_repeat`, `C08_spec_jump`, `C08_spec_multiply` — sanity of the Spec reader;
 * `C08_tables`            — the code's `Shortcuts` enum (generated table `Gen/Shortcuts.lean`) has exactly the five
                             kinds and letters that model, harness and Spec assume.
-Not proved yet (see design_notes/C08.md): `C08_expand` (no model of the parse-time expansion yet) and
-`C08_recompress` (Spec.expand of the formatted words ≈ values); both are checked per case by the harness.
+* `C08_recompress`, `C08_grow_shrink` — for ALL original shortcut lists and ALL new value lists the words written by
+                            `format (update_with_new_values ..)` are read by the Spec as the new values;
+* `C08_expand`            — for every token list of G the parse-time expansion (Model/ShortcutParse.lean) accepts exactly
+                            when the Spec does and yields exactly the Spec's values (`C08_expand_zero_count_refuted`: why
+                            the count 0 is outside G);
+* `C08_wellformed`        — plain nodes hold numbers, jump shortcuts only jumps, other shortcuts only numbers;
+* `C08_format_sound`      — local correctness of `ShortcutNode.format` for every run and every carried entry.
 -/
 namespace MontePyVerif.C08
 open MontePyVerif.Model.Shortcut MontePyVerif.Model.ListNode
@@ -300,5 +306,1256 @@ theorem C08_spec_multiply (a x y : Rat) :
 theorem C08_tables :
     MontePyVerif.Gen.shortcutLetters =
       [("REPEAT", "r"), ("JUMP", "j"), ("INTERPOLATE", "i"), ("LOG_INTERPOLATE", "ilog"), ("MULTIPLY", "m")] := rfl
+
+open MontePyVerif.Spec.Shortcut (Entry Val St step run expand isClose matchesAll between)
+
+/-! ## Re-compression: the written words read back as the values -/
+
+/-- the MCNP word a word of the model's output stands for (a plain node whose value is `None` has no word) -/
+def Word.toEntry : Word → Option Entry
+  | .num l => l.val.map Entry.num
+  | .rep n shown => some (Entry.rep (if shown then some n else none))
+  | .mul x => some (Entry.mul x)
+  | .jmp n shown => some (Entry.jmp (if shown then some n else none))
+  | .lin n shown => some (Entry.lin (if shown then some n else none))
+  | .log n shown => some (Entry.log (if shown then some n else none))
+
+/-- the word list as MCNP entries -/
+def entries : List Word → Option (List Entry)
+  | [] => some []
+  | w :: ws => match Word.toEntry w, entries ws with
+    | some e, some es => some (e :: es)
+    | _, _ => none
+
+/-- the Spec reader run directly on the model's words -/
+def runW : List Word → St → Option St
+  | [], s => some s
+  | w :: ws, s => match Word.toEntry w with
+    | none => none
+    | some e => match step s e with
+      | none => none
+      | some s' => runW ws s'
+
+theorem runW_append : ∀ (a b : List Word) (s : St), runW (a ++ b) s = (runW a s).bind (runW b)
+  | [], b, s => by simp [runW]
+  | w :: a, b, s => by
+    simp only [List.cons_append, runW]
+    cases Word.toEntry w with
+    | none => rfl
+    | some e =>
+      simp only
+      cases step s e with
+      | none => rfl
+      | some s' => exact runW_append a b s'
+
+theorem runW_entries : ∀ (ws : List Word) (s : St),
+    runW ws s = match entries ws with | some es => run es s | none => none
+  | [], s => by simp [runW, entries, run]
+  | w :: ws, s => by
+    simp only [runW, entries]
+    cases hw : Word.toEntry w with
+    | none => simp
+    | some e =>
+      simp only
+      cases hs : step s e with
+      | none => cases entries ws <;> simp [run, hs]
+      | some s' =>
+        simp only
+        rw [runW_entries ws s']
+        cases entries ws <;> simp [run, hs]
+
+/-- position by position, same length -/
+def MatchL : List Val → List (Option Rat) → Prop
+  | [], [] => True
+  | v :: vs, y :: ys => v.matches y = true ∧ MatchL vs ys
+  | _, _ => False
+
+theorem MatchL_append : ∀ (a : List Val) (c : List (Option Rat)) (b : List Val) (d : List (Option Rat)),
+    MatchL a c → MatchL b d → MatchL (a ++ b) (c ++ d)
+  | [], [], b, d, _, h => by simpa using h
+  | [], _ :: _, _, _, h, _ => by simp [MatchL] at h
+  | _ :: _, [], _, _, h, _ => by simp [MatchL] at h
+  | v :: a, y :: c, b, d, h, h2 => by
+    simp only [List.cons_append, MatchL] at *
+    exact ⟨h.1, MatchL_append a c b d h.2 h2⟩
+
+theorem matchesAll_of_MatchL : ∀ (vs : List Val) (ys zs : List (Option Rat)),
+    MatchL vs ys → (∀ z ∈ zs, z = none) → matchesAll vs (ys ++ zs) = true
+  | [], [], zs, _, hz => by
+    simp only [List.nil_append, matchesAll, List.all_eq_true]
+    intro z hzm; simp [hz z hzm]
+  | [], _ :: _, _, h, _ => by simp [MatchL] at h
+  | _ :: _, [], _, h, _ => by simp [MatchL] at h
+  | v :: vs, y :: ys, zs, h, hz => by
+    simp only [MatchL] at h
+    simp only [List.cons_append, matchesAll, Bool.and_eq_true]
+    exact ⟨h.1, matchesAll_of_MatchL vs ys zs h.2 hz⟩
+
+theorem rabs_sub (a b : Rat) : rabs (b - a) = rabs (a - b) := by
+  unfold rabs; grind
+
+theorem rabs_nonneg (x : Rat) : 0 ≤ rabs x := by unfold rabs; grind
+
+/-- the model's `math.isclose` implies the Spec's closeness -/
+theorem isclose_sound (a b : Rat) (h : isclose a b = true) : isClose a b = true := by
+  unfold isclose at h
+  unfold isClose
+  simp only [MontePyVerif.Spec.Shortcut.abs, MontePyVerif.Spec.Shortcut.relTol, MontePyVerif.Spec.Shortcut.absTol] at *
+  split at h
+  · rename_i hab
+    subst hab
+    have h0 : a - a = 0 := by grind
+    have := rabs_nonneg (relTol * a)
+    simp only [rabs, relTol] at this
+    simp [h0]
+    grind
+  · have := rabs_sub a b
+    simp only [rabs, relTol, absTol] at *
+    grind
+
+theorem isClose_refl (a : Rat) : isClose a a = true := isclose_sound a a (by simp [isclose])
+
+/-! ### what a shortcut may hold -/
+
+/-- a jump shortcut holds only jumps; every other shortcut holds only numbers -/
+def ScOk (s : Sc) : Prop :=
+  (s.kind = Kind.jmp → ∀ n ∈ s.nodes, n.val = none) ∧ (s.kind ≠ Kind.jmp → ∀ n ∈ s.nodes, n.val.isSome = true)
+
+def ItemOk : Item → Prop
+  | .leaf l => l.val.isSome = true
+  | .sc _ s => ScOk s
+
+theorem canConsume_kind (s : Sc) (n : Leaf) (f l : Bool) : (canConsumeNode s n f l).2.kind = s.kind := by
+  unfold canConsumeNode
+  repeat' split
+  all_goals rfl
+
+theorem sameRepeat_some (e n : Leaf) (h : isSameRepeatValue e n = true) : n.val.isSome = true := by
+  unfold isSameRepeatValue at h
+  split at h
+  · simp at h
+  · split at h
+    · rename_i hn; simp [hn]
+    · simp at h
+
+theorem validEdge_some (s : Sc) (n : Leaf) (f : Bool) (h : isValidInterpolateEdge s n f = true) :
+    n.val.isSome = true := by
+  unfold isValidInterpolateEdge at h
+  split at h
+  · simp at h
+  · rename_i hn; simp [hn]
+
+theorem consume_val (s : Sc) (n : Leaf) (f l : Bool) (h : (consumeEdgeNode s n f l).1 = true) :
+    (s.kind = Kind.jmp → n.val = none) ∧ (s.kind ≠ Kind.jmp → n.val.isSome = true) := by
+  constructor
+  · intro hk; exact C08_jump_only_none s n f l hk h
+  · intro hk
+    unfold consumeEdgeNode at h
+    have hc : (canConsumeNode s n f l).1 = true := by
+      cases hcc : canConsumeNode s n f l with
+      | mk ok s' => rw [hcc] at h; cases ok <;> simp_all
+    clear h
+    unfold canConsumeNode at hc
+    cases hkind : s.kind with
+    | jmp => exact absurd hkind hk
+    | rep =>
+      rw [hkind] at hc
+      simp only at hc
+      split at hc
+      · exact hc
+      · rename_i first rest hn
+        cases f with
+        | true => simp only [if_true] at hc; exact sameRepeat_some first n hc
+        | false =>
+          simp only [Bool.false_eq_true, if_false] at hc
+          rw [hn] at hc
+          simp only [List.all_cons, Bool.and_eq_true] at hc
+          exact sameRepeat_some first n hc.1
+    | lin => rw [hkind] at hc; exact validEdge_some s n f hc
+    | log => rw [hkind] at hc; exact validEdge_some s n f hc
+    | mul =>
+      rw [hkind] at hc
+      simp only at hc
+      split at hc
+      · simp at hc
+      · rename_i hnone
+        cases hv : n.val with
+        | none => simp [hv] at hnone
+        | some x => rfl
+
+
+theorem consume_kind (s : Sc) (n : Leaf) (f l : Bool) : (consumeEdgeNode s n f l).2.kind = s.kind := by
+  unfold consumeEdgeNode
+  have h := canConsume_kind s n f l
+  cases hc : canConsumeNode s n f l with
+  | mk ok s' => rw [hc] at h; cases ok <;> simp_all
+
+theorem consume_nodes_mem (s : Sc) (n : Leaf) (f l : Bool) :
+    ∀ m ∈ (consumeEdgeNode s n f l).2.nodes, m ∈ s.nodes ∨ (m = n ∧ (consumeEdgeNode s n f l).1 = true) := by
+  intro m hm
+  cases f with
+  | true =>
+    rw [consume_fwd] at hm
+    split at hm
+    · rename_i hok
+      simp only [List.mem_append, List.mem_singleton] at hm
+      rcases hm with h | h
+      · exact Or.inl h
+      · exact Or.inr ⟨h, hok⟩
+    · exact Or.inl hm
+  | false =>
+    rw [consume_bwd] at hm
+    split at hm
+    · rename_i hok
+      simp only [List.mem_cons] at hm
+      rcases hm with h | h
+      · exact Or.inr ⟨h, hok⟩
+      · exact Or.inl h
+    · exact Or.inl hm
+
+/-- consuming keeps a shortcut well-formed, whether or not the node is taken -/
+theorem consume_ok (s : Sc) (n : Leaf) (f l : Bool) (h : ScOk s) : ScOk (consumeEdgeNode s n f l).2 := by
+  unfold ScOk
+  rw [consume_kind]
+  constructor
+  · intro hk m hm
+    rcases consume_nodes_mem s n f l m hm with h1 | ⟨h1, hok⟩
+    · exact h.1 hk m h1
+    · rw [h1]; exact (consume_val s n f l hok).1 hk
+  · intro hk m hm
+    rcases consume_nodes_mem s n f l m hm with h1 | ⟨h1, hok⟩
+    · exact h.2 hk m h1
+    · rw [h1]; exact (consume_val s n f l hok).2 hk
+
+def AllOk (out : List Item) : Prop := ∀ it ∈ out, ItemOk it
+
+theorem allOk_cons {it : Item} {out : List Item} (h1 : ItemOk it) (h2 : AllOk out) : AllOk (it :: out) := by
+  intro x hx
+  simp only [List.mem_cons] at hx
+  rcases hx with rfl | hx
+  · exact h1
+  · exact h2 x hx
+
+theorem orphan_ok : ScOk orphanJump := by
+  unfold ScOk orphanJump; simp
+
+theorem allOk_orphan (out : List Item) (v : Leaf) (h : AllOk out) : AllOk (checkForOrphanJump out v).1 := by
+  unfold checkForOrphanJump
+  split
+  · rename_i hnone
+    have hok : (consumeEdgeNode orphanJump v true false).1 = true := by
+      simp [consumeEdgeNode, canConsumeNode, orphanJump, hnone]
+    cases hc : consumeEdgeNode orphanJump v true false with
+    | mk ok s =>
+      rw [hc] at hok
+      simp only at hok
+      subst hok
+      simp only [if_true]
+      have := consume_ok orphanJump v true false orphan_ok
+      rw [hc] at this
+      exact allOk_cons this h
+  · rename_i hsome
+    refine allOk_cons ?_ h
+    cases hv : v.val with
+    | none => simp [hv] at hsome
+    | some x => simp [ItemOk, hv]
+
+theorem allOk_reverseExp (budget : Nat) : ∀ (s : Sc) (out : List Item), ScOk s → AllOk out →
+    ScOk (tryReverseExpansion s budget out).1 ∧ AllOk (tryReverseExpansion s budget out).2 := by
+  induction budget with
+  | zero => intro s out hs ho; simpa [tryReverseExpansion] using ⟨hs, ho⟩
+  | succ b ih =>
+    intro s out hs ho
+    unfold tryReverseExpansion
+    split
+    · rename_i l rest
+      have hso := consume_ok s l false false hs
+      cases hc : consumeEdgeNode s l false false with
+      | mk ok s' =>
+        rw [hc] at hso
+        cases ok
+        · exact ⟨hso, ho⟩
+        · simp only [if_true]
+          exact ih s' rest hso (fun x hx => ho x (List.mem_cons_of_mem _ hx))
+    · exact ⟨hs, ho⟩
+
+theorem allOk_stepPass (st : PassSt) (v : Leaf) (b : Option (Int × Sc))
+    (hb : ∀ p, b = some p → p.2.nodes = []) (h : AllOk st.out) : AllOk (stepPass st v b).out := by
+  unfold stepPass
+  split
+  · rename_i sid s
+    have hs : ScOk s := by
+      have := hb (sid, s) rfl
+      unfold ScOk; simp only at this; rw [this]; simp
+    simp only
+    have hso := consume_ok s v true (st.i == (if st.cur = true then st.i - 1 else st.lastEnd) + 1 && (if st.cur = true then st.i - 1 else st.lastEnd) != 0) hs
+    cases hc : consumeEdgeNode s v true (st.i == (if st.cur = true then st.i - 1 else st.lastEnd) + 1 && (if st.cur = true then st.i - 1 else st.lastEnd) != 0) with
+    | mk ok s1 =>
+      rw [hc] at hso
+      cases ok
+      · simp only [Bool.false_eq_true, if_false]
+        exact allOk_orphan st.out v h
+      · simp only [if_true]
+        have hr := allOk_reverseExp (if st.i > 1 then st.i - 1 - (if st.cur = true then st.i - 1 else st.lastEnd) else 0) s1 st.out hso h
+        exact allOk_cons hr.1 hr.2
+  · split
+    · rename_i sid s rest hcur hout
+      have hs : ScOk s := by
+        have := h (Item.sc sid s) (by rw [hout]; exact List.mem_cons_self)
+        exact this
+      have hrest : AllOk rest := fun x hx => h x (by rw [hout]; exact List.mem_cons_of_mem _ hx)
+      have hso := consume_ok s v true (st.i == st.lastEnd + 1 && st.lastEnd != 0) hs
+      cases hc : consumeEdgeNode s v true (st.i == st.lastEnd + 1 && st.lastEnd != 0) with
+      | mk ok s1 =>
+        rw [hc] at hso
+        simp only [hc]
+        cases ok
+        · simp only [Bool.false_eq_true, if_false]
+          exact allOk_orphan _ v (allOk_cons hso hrest)
+        · simp only [if_true]
+          exact allOk_cons hso hrest
+    · exact allOk_orphan st.out v h
+
+theorem allOk_expandShortcuts : ∀ (slots : List (Leaf × Option (Int × Sc))) (st : PassSt),
+    (∀ q ∈ slots, ∀ p, q.2 = some p → p.2.nodes = []) → AllOk st.out →
+    AllOk (expandShortcuts slots st).out
+  | [], st, _, h => by simpa [expandShortcuts] using h
+  | (v, b) :: rest, st, hb, h => by
+    simp only [expandShortcuts]
+    exact allOk_expandShortcuts rest _ (fun q hq => hb q (List.mem_cons_of_mem _ hq))
+      (allOk_stepPass st v b (hb (v, b) List.mem_cons_self) h)
+
+
+/-! ### each shortcut text denotes its run -/
+
+/-- reading `ws` from the Spec state `S` succeeds, leaves no interpolation open, appends values that match
+    `leaves` position by position, and leaves `tail` as the previous entry -/
+def Sound (ws : List Word) (tail : Option Rat) (leaves : List Leaf) (S : St) : Prop :=
+  ∃ S', runW ws S = some S' ∧ S'.pend = none ∧
+    (∃ vs, S'.out = S.out ++ vs ∧ MatchL vs (leaves.map (·.val))) ∧ ∀ t, tail = some t → S'.prev = some t
+
+theorem countText_getD (s : Sc) (n : Nat) (c : String) (shown : Bool) (h : countText s n = (c, shown)) :
+    (if shown = true then some n else none : Option Nat).getD 1 = n := by
+  unfold countText at h
+  split at h
+  · rename_i hc
+    simp only [Prod.mk.injEq] at h
+    simp only [Bool.and_eq_true, beq_iff_eq] at hc
+    rw [← h.2]; simp [hc.1]
+  · simp only [Prod.mk.injEq] at h
+    rw [← h.2]; simp
+
+theorem runW_nums : ∀ (nodes : List Leaf) (S : St), (∀ n ∈ nodes, n.val.isSome = true) → S.pend = none →
+    ∃ S', runW (nodes.map Word.num) S = some S' ∧ S'.pend = none ∧
+      (∃ vs, S'.out = S.out ++ vs ∧ MatchL vs (nodes.map (·.val))) ∧
+      S'.prev = (match nodes.getLast? with | some l => l.val | none => S.prev)
+  | [], S, _, hp => ⟨S, by simp [runW], hp, ⟨[], by simp, by simp [MatchL]⟩, by simp⟩
+  | l :: ls, S, hs, hp => by
+    obtain ⟨out, prev, pend⟩ := S
+    simp only at hp
+    subst hp
+    have hl := hs l List.mem_cons_self
+    cases hv : l.val with
+    | none => simp [hv] at hl
+    | some x =>
+      obtain ⟨S', h1, h2, ⟨vs, h3, h4⟩, h5⟩ := runW_nums ls ⟨out ++ [Val.num x], some x, none⟩
+        (fun n hn => hs n (List.mem_cons_of_mem _ hn)) rfl
+      refine ⟨S', ?_, h2, ⟨Val.num x :: vs, ?_, ?_⟩, ?_⟩
+      · simp only [List.map_cons, runW, Word.toEntry, hv, Option.map_some, step]
+        exact h1
+      · rw [h3]; simp
+      · simp only [List.map_cons, hv, MatchL]
+        exact ⟨by simp [Val.matches, isClose_refl], h4⟩
+      · rw [h5]
+        cases ls with
+        | nil => simp [hv]
+        | cons l2 ls' =>
+          simp only [List.getLast?_cons_cons]
+          cases hgl : (l2 :: ls').getLast? with
+          | none => simp at hgl
+          | some z => rfl
+
+theorem sound_explicit (s : Sc) (S : St) (hp : S.pend = none) (hs : ∀ n ∈ s.nodes, n.val.isSome = true) :
+    Sound (formatExplicit s).words (formatExplicit s).tail s.nodes S := by
+  obtain ⟨S', h1, h2, h3, h5⟩ := runW_nums s.nodes S hs hp
+  refine ⟨S', h1, h2, h3, ?_⟩
+  intro t ht
+  rw [h5]
+  simp only [formatExplicit] at ht
+  split at ht
+  · rename_i l hl; simp [hl, ht]
+  · simp at ht
+
+theorem MatchL_jumps : ∀ (nodes : List Leaf), (∀ n ∈ nodes, n.val = none) →
+    MatchL (List.replicate nodes.length Val.jump) (nodes.map (·.val))
+  | [], _ => by simp [MatchL]
+  | l :: ls, h => by
+    simp only [List.length_cons, List.replicate_succ, List.map_cons, MatchL]
+    refine ⟨?_, MatchL_jumps ls (fun n hn => h n (List.mem_cons_of_mem _ hn))⟩
+    rw [h l List.mem_cons_self]; rfl
+
+theorem sound_jump (s : Sc) (S : St) (hp : S.pend = none) (hn : ∀ n ∈ s.nodes, n.val = none) :
+    Sound (formatJump s).words (formatJump s).tail s.nodes S := by
+  obtain ⟨out, prev, pend⟩ := S
+  simp only at hp
+  subst hp
+  unfold formatJump
+  simp only
+  split
+  · rename_i h0
+    have : s.nodes = [] := by
+      have : s.nodes.length = 0 := by simpa using h0
+      exact List.eq_nil_of_length_eq_zero this
+    refine ⟨⟨out, prev, none⟩, by simp [runW], rfl, ⟨[], by simp, by simp [this, MatchL]⟩, by simp⟩
+  · cases hct : countText s s.nodes.length with
+    | mk c shown =>
+      have hg := countText_getD s _ c shown hct
+      simp only
+      refine ⟨⟨out ++ List.replicate s.nodes.length Val.jump, none, none⟩, ?_, rfl, ⟨_, rfl, MatchL_jumps s.nodes hn⟩, by simp⟩
+      simp only [runW, Word.toEntry, step, hg]
+
+theorem MatchL_allRepeat (c : Rat) : ∀ (nodes : List Leaf), allRepeat c nodes = true →
+    MatchL (List.replicate nodes.length (Val.num c)) (nodes.map (·.val))
+  | [], _ => by simp [MatchL]
+  | l :: ls, h => by
+    simp only [allRepeat, List.all_cons, Bool.and_eq_true] at h
+    simp only [List.length_cons, List.replicate_succ, List.map_cons, MatchL]
+    refine ⟨?_, MatchL_allRepeat c ls (by simpa [allRepeat] using h.2)⟩
+    have h1 := h.1
+    split at h1
+    · simp at h1
+    · rename_i y hy
+      rw [hy]
+      simp only [Val.matches]
+      split at h1
+      · exact isclose_sound c y h1
+      · have : c = y := by simpa using h1
+        rw [this]; exact isClose_refl y
+
+theorem sound_repeat (s : Sc) (carried : Option Rat) (S : St) (f : Fmt) (hp : S.pend = none)
+    (hc : ∀ c, carried = some c → S.prev = some c) (h : formatRepeat s carried = some f) :
+    Sound f.words f.tail s.nodes S := by
+  obtain ⟨out, prev, pend⟩ := S
+  simp only at hp hc
+  subst hp
+  unfold formatRepeat at h
+  simp only at h
+  split at h
+  · rename_i c heq
+    have hcar : carried = some c ∧ allRepeat c s.nodes = true := by
+      cases carried with
+      | none => simp at heq
+      | some c0 =>
+        simp only at heq
+        split at heq
+        · rename_i hcond
+          simp only [Option.some.injEq] at heq
+          subst heq
+          simp only [Bool.and_eq_true] at hcond
+          exact ⟨rfl, hcond.2⟩
+        · simp at heq
+    have hprev := hc c hcar.1
+    subst hprev
+    cases hct : countText s s.nodes.length with
+    | mk ct shown =>
+      have hg := countText_getD s _ ct shown hct
+      rw [hct] at h
+      simp only [Option.some.injEq] at h
+      subst h
+      refine ⟨⟨out ++ List.replicate s.nodes.length (Val.num c), some c, none⟩, ?_, rfl,
+        ⟨_, rfl, MatchL_allRepeat c s.nodes hcar.2⟩, by simp⟩
+      simp only [runW, Word.toEntry, step, hg]
+  · split at h
+    · rename_i first rest hn
+      split at h
+      · rename_i a ha
+        split at h
+        · rename_i hcond
+          simp only [Bool.and_eq_true] at hcond
+          cases hct : countText s rest.length with
+          | mk ct shown =>
+            have hg := countText_getD s _ ct shown hct
+            rw [hct] at h
+            simp only [Option.some.injEq] at h
+            subst h
+            refine ⟨⟨out ++ [Val.num a] ++ List.replicate rest.length (Val.num a), some a, none⟩, ?_, rfl,
+              ⟨Val.num a :: List.replicate rest.length (Val.num a), by simp, ?_⟩, by simp⟩
+            · simp only [runW, Word.toEntry, ha, Option.map_some, step, hg]
+            · rw [hn]
+              simp only [List.map_cons, ha, MatchL]
+              exact ⟨by simp [Val.matches, isClose_refl], MatchL_allRepeat a rest hcond.2⟩
+        · simp at h
+      · simp at h
+    · simp at h
+
+
+theorem sound_multiply (s : Sc) (carried : Option Rat) (S : St) (f : Fmt) (hp : S.pend = none)
+    (hc : ∀ c, carried = some c → S.prev = some c) (h : formatMultiply s carried = some f) :
+    Sound f.words f.tail s.nodes S := by
+  obtain ⟨out, prev, pend⟩ := S
+  simp only at hp hc
+  subst hp
+  unfold formatMultiply at h
+  simp only at h
+  split at h
+  · simp at h
+  · rename_i base first product heq
+    split at h
+    · rename_i b p w hw
+      split at h
+      · simp at h
+      · split at h
+        · rename_i hclose
+          simp only [Option.some.injEq] at h
+          subst h
+          split at heq
+          · rename_i c pl hnodes
+            simp only [Option.some.injEq, Prod.mk.injEq] at heq
+            obtain ⟨hb, hf, hpv⟩ := heq
+            subst hf
+            subst hb
+            have hprev := hc c rfl
+            subst hprev
+            refine ⟨⟨out ++ [Val.num (c * w)], some (c * w), none⟩, ?_, rfl, ⟨[Val.num (c * w)], rfl, ?_⟩, by simp⟩
+            · simp only [List.nil_append, runW, Word.toEntry, step]
+            · rw [hnodes]
+              simp only [List.map_cons, List.map_nil, hpv, MatchL, Val.matches, and_true]
+              exact isclose_sound _ _ hclose
+          · rename_i a pn hnodes
+            simp only [Option.some.injEq, Prod.mk.injEq] at heq
+            obtain ⟨hb, hf, hpv⟩ := heq
+            subst hf
+            refine ⟨⟨out ++ [Val.num b] ++ [Val.num (b * w)], some (b * w), none⟩, ?_, rfl,
+              ⟨[Val.num b, Val.num (b * w)], by simp, ?_⟩, by simp⟩
+            · simp only [List.cons_append, List.nil_append, runW, Word.toEntry, hb, Option.map_some, step]
+            · rw [hnodes]
+              simp only [List.map_cons, List.map_nil, hpv, hb, MatchL, Val.matches, and_true]
+              exact ⟨isClose_refl b, isclose_sound _ _ hclose⟩
+          · simp at heq
+        · simp at h
+    · simp at h
+
+theorem lin_alg (b e D k : Rat) : b + (e - b) / D * k = b + (e - b) * k / D := by grind
+
+theorem MatchL_lin (b e D : Rat) (lastL : Leaf) (hl : lastL.val = some e) :
+    ∀ (init : List Leaf) (i : Nat), linOk b ((e - b) / D) i (init ++ [lastL]) = true →
+      MatchL ((List.range' i init.length).map (fun j => Val.num (b + (e - b) * ((j + 1 : Nat) : Rat) / D))
+          ++ [Val.num e]) ((init ++ [lastL]).map (·.val))
+  | [], i, _ => by simp [MatchL, hl, Val.matches, isClose_refl]
+  | l :: init, i, h => by
+    simp only [List.cons_append, linOk, Bool.and_eq_true] at h
+    simp only [List.length_cons, List.range'_succ, List.map_cons, List.cons_append, MatchL]
+    refine ⟨?_, MatchL_lin b e D lastL hl init (i + 1) h.2⟩
+    have h1 := h.1
+    split at h1
+    · rename_i y hy
+      rw [hy, lin_alg] at *
+      simpa [Val.matches] using isclose_sound _ _ h1
+    · simp at h1
+
+theorem logv_matches (b e y : Rat) (n j : Nat) :
+    (Val.logv b e n (j + 1)).matches (some y) = powClose y (n + 1) (b ^ (n + 1 - (j + 1)) * e ^ (j + 1)) := rfl
+
+theorem MatchL_log (b e : Rat) (n : Nat) (lastL : Leaf) (hl : lastL.val = some e) :
+    ∀ (init : List Leaf) (i : Nat), logOk b e (n + 1) i (init ++ [lastL]) = true →
+      MatchL ((List.range' i init.length).map (fun j => Val.logv b e n (j + 1)) ++ [Val.num e])
+        ((init ++ [lastL]).map (·.val))
+  | [], i, _ => by simp [MatchL, hl, Val.matches, isClose_refl]
+  | l :: init, i, h => by
+    simp only [List.cons_append, logOk, Bool.and_eq_true] at h
+    simp only [List.length_cons, List.range'_succ, List.map_cons, List.cons_append, MatchL]
+    refine ⟨?_, MatchL_log b e n lastL hl init (i + 1) h.2⟩
+    have h1 := h.1
+    split at h1
+    · rename_i y hy
+      rw [hy, logv_matches]
+      exact h1
+    · simp at h1
+
+
+/-- the interpolation word and its closing number, read from a state whose previous entry is `b`, denote a run
+    that `_is_interpolation` accepted from `b` -/
+theorem interp_run (s : Sc) (b : Rat) (nodes : List Leaf) (e : Leaf) (S : St) (hp : S.pend = none)
+    (hprev : S.prev = some b) (hI : isInterpolation s (some b) nodes = true) (he : nodes.getLast? = some e)
+    (shown : Bool) (ct : String) (hct : countText s (nodes.length - 1) = (ct, shown)) :
+    ∃ S', runW [if s.kind == Kind.log then Word.log (nodes.length - 1) shown else Word.lin (nodes.length - 1) shown,
+        Word.num e] S = some S' ∧ S'.pend = none ∧
+      (∃ vs, S'.out = S.out ++ vs ∧ MatchL vs (nodes.map (·.val))) ∧ S'.prev = e.val := by
+  obtain ⟨out, prev, pend⟩ := S
+  simp only at hp hprev
+  subst hp hprev
+  have hg := countText_getD s _ ct shown hct
+  obtain ⟨init, hinit⟩ := List.getLast?_eq_some_iff.mp he
+  subst hinit
+  unfold isInterpolation at hI
+  simp only [he] at hI
+  split at hI
+  · simp at hI
+  · rename_i ev hev
+    split at hI
+    · simp at hI
+    · have hlen : (init ++ [e]).length - 1 = init.length := by simp
+      rw [hlen] at hg ⊢
+      split at hI
+      · rename_i hlog
+        split at hI
+        · simp at hI
+        · rename_i hpos
+          simp only [Bool.or_eq_true, decide_eq_true_eq, not_or] at hpos
+          have hlen2 : (init ++ [e]).length = init.length + 1 := by simp
+          rw [hlen2] at hI
+          have hm := MatchL_log b ev init.length e hev init 0 hI
+          refine ⟨⟨out ++ between b ev init.length true ++ [Val.num ev], some ev, none⟩, ?_, rfl,
+            ⟨between b ev init.length true ++ [Val.num ev], by simp, ?_⟩, by simp [hev]⟩
+          · simp only [hlog, if_true, runW, Word.toEntry, step, hg, hev, Option.map_some, Bool.true_and]
+            have h1 : ¬ (b ≤ 0) := hpos.1
+            have h2 : ¬ (ev ≤ 0) := hpos.2
+            simp [h1, h2]
+          · simpa [between, List.range_eq_range'] using hm
+      · rename_i hlog
+        have hlen2 : ((init ++ [e]).length : Rat) = ((init.length + 1 : Nat) : Rat) := by simp
+        rw [hlen2] at hI
+        have hm := MatchL_lin b ev ((init.length + 1 : Nat) : Rat) e hev init 0 hI
+        refine ⟨⟨out ++ between b ev init.length false ++ [Val.num ev], some ev, none⟩, ?_, rfl,
+          ⟨between b ev init.length false ++ [Val.num ev], by simp, ?_⟩, by simp [hev]⟩
+        · simp only [hlog, runW, Word.toEntry, step, hg, hev, Option.map_some]
+          simp
+          rw [hg]
+        · simpa [between, List.range_eq_range'] using hm
+
+theorem sound_interpolate (s : Sc) (carried : Option Rat) (S : St) (f : Fmt) (hp : S.pend = none)
+    (hc : ∀ c, carried = some c → S.prev = some c) (h : formatInterpolate s carried = some f) :
+    Sound f.words f.tail s.nodes S := by
+  unfold formatInterpolate at h
+  split at h
+  · rename_i hcond
+    simp only [Bool.and_eq_true] at hcond
+    split at h
+    · rename_i e he
+      simp only [Option.some.injEq] at h
+      subst h
+      cases hcar : carried with
+      | none => simp [hcar] at hcond
+      | some c =>
+        rw [hcar] at hcond
+        cases hct : countText s (s.nodes.length - 1) with
+        | mk ct shown =>
+          obtain ⟨S', h1, h2, h3, h4⟩ := interp_run s c s.nodes e S hp (hc c hcar) hcond.2 he shown ct hct
+          refine ⟨S', ?_, h2, h3, ?_⟩
+          · simpa [mkInterp, hct] using h1
+          · intro t ht
+            simp only [mkInterp] at ht
+            rw [h4, ht]
+    · simp at h
+  · split at h
+    · rename_i first rest hn
+      split at h
+      · rename_i hcond
+        simp only [Bool.and_eq_true] at hcond
+        split at h
+        · rename_i e he
+          simp only [Option.some.injEq] at h
+          subst h
+          have hI := hcond.2
+          cases hfv : first.val with
+          | none => simp [isInterpolation, hfv] at hI
+          | some b =>
+            rw [hfv] at hI
+            obtain ⟨out, prev, pend⟩ := S
+            simp only at hp
+            subst hp
+            cases hct : countText s (rest.length - 1) with
+            | mk ct shown =>
+              obtain ⟨S', h1, h2, ⟨vs, h3, h3'⟩, h4⟩ := interp_run s b rest e ⟨out ++ [Val.num b], some b, none⟩ rfl rfl
+                hI he shown ct hct
+              refine ⟨S', ?_, h2, ⟨Val.num b :: vs, ?_, ?_⟩, ?_⟩
+              · simp only [mkInterp, hct, List.cons_append, List.nil_append]
+                simp only [runW, Word.toEntry, hfv, Option.map_some, step] at h1 ⊢
+                exact h1
+              · rw [h3]; simp
+              · rw [hn]
+                simp only [List.map_cons, hfv, MatchL]
+                exact ⟨by simp [Val.matches, isClose_refl], h3'⟩
+              · intro t ht
+                simp only [mkInterp] at ht
+                rw [h4, ht]
+        · simp at h
+      · simp at h
+    · simp at h
+
+/-- **local correctness of `ShortcutNode.format`**: whatever run a well-formed shortcut holds and whatever entry is
+    carried over from the previous shortcut, the words written denote exactly the run -/
+theorem sound_format (s : Sc) (carried : Option Rat) (S : St) (hok : ScOk s) (hp : S.pend = none)
+    (hc : ∀ c, carried = some c → S.prev = some c) :
+    Sound (MontePyVerif.Model.Shortcut.format s carried).words (MontePyVerif.Model.Shortcut.format s carried).tail s.nodes S := by
+  unfold MontePyVerif.Model.Shortcut.format
+  simp only
+  cases hk : s.kind with
+  | jmp =>
+    simp only
+    exact sound_jump s S hp (hok.1 hk)
+  | rep =>
+    simp only
+    have hsome := hok.2 (by rw [hk]; simp)
+    cases hf : formatRepeat s carried with
+    | none => exact sound_explicit s S hp hsome
+    | some f => exact sound_repeat s carried S f hp hc hf
+  | mul =>
+    simp only
+    have hsome := hok.2 (by rw [hk]; simp)
+    cases hf : formatMultiply s carried with
+    | none => exact sound_explicit s S hp hsome
+    | some f => exact sound_multiply s carried S f hp hc hf
+  | lin =>
+    simp only
+    have hsome := hok.2 (by rw [hk]; simp)
+    cases hf : formatInterpolate s carried with
+    | none => exact sound_explicit s S hp hsome
+    | some f => exact sound_interpolate s carried S f hp hc hf
+  | log =>
+    simp only
+    have hsome := hok.2 (by rw [hk]; simp)
+    cases hf : formatInterpolate s carried with
+    | none => exact sound_explicit s S hp hsome
+    | some f => exact sound_interpolate s carried S f hp hc hf
+
+
+/-! ### the loop of `ListNode.format` -/
+
+/-- invariant of `ListNode.format`: the words written so far read, from the start, as the values of the nodes
+    formatted so far, no interpolation is open, and the entry a following shortcut may continue from
+    (`_written_tail`) is the Spec's previous entry -/
+def FInv (st : FmtSt) (done : List Item) : Prop :=
+  ∃ S, runW st.words St.init = some S ∧ S.pend = none ∧ MatchL S.out ((flatten done).map (·.val)) ∧
+    ∀ c, st.carried = some c → S.prev = some c
+
+theorem flatten_snoc (done : List Item) (it : Item) : flatten (done ++ [it]) = flatten done ++ it.leaves := by
+  simp [flatten]
+
+theorem finv_step (st : FmtSt) (done : List Item) (it : Item) (isLast : Bool) (h : FInv st done)
+    (hok : ItemOk it) : FInv (formatStep st it isLast) (done ++ [it]) := by
+  obtain ⟨S, h1, h2, h3, h4⟩ := h
+  cases it with
+  | leaf l =>
+    simp only [ItemOk] at hok
+    cases hv : l.val with
+    | none => simp [hv] at hok
+    | some x =>
+      obtain ⟨out, prev, pend⟩ := S
+      simp only at h2
+      subst h2
+      refine ⟨⟨out ++ [Val.num x], some x, none⟩, ?_, rfl, ?_, by simp [formatStep]⟩
+      · simp only [formatStep, runW_append, h1, Option.bind_some, runW, Word.toEntry, hv, Option.map_some, step]
+      · rw [flatten_snoc]
+        simp only [Item.leaves, List.map_append, List.map_cons, List.map_nil, hv]
+        exact MatchL_append _ _ _ _ h3 (by simp [MatchL, Val.matches, isClose_refl])
+  | sc sid s =>
+    simp only [ItemOk] at hok
+    have hc' : ∀ c, (match st.last with | some (Item.sc _ _) => st.carried | _ => none) = some c → S.prev = some c := by
+      intro c hc
+      split at hc
+      · exact h4 c hc
+      · simp at hc
+    obtain ⟨S', g1, g2, ⟨vs, g3, g3'⟩, g4⟩ := sound_format s _ S hok h2 hc'
+    refine ⟨S', ?_, g2, ?_, ?_⟩
+    · simp only [formatStep, runW_append, h1, Option.bind_some]
+      exact g1
+    · rw [flatten_snoc, g3]
+      simp only [Item.leaves, List.map_append]
+      exact MatchL_append _ _ _ _ h3 g3'
+    · intro c hc
+      simp only [formatStep] at hc
+      exact g4 c hc
+
+theorem finv_loop : ∀ (items : List Item) (st : FmtSt) (done : List Item), FInv st done →
+    (∀ it ∈ items, ItemOk it) → FInv (formatLoop items st) (done ++ items)
+  | [], st, done, h, _ => by simpa [formatLoop] using h
+  | [x], st, done, h, hok => by
+    simp only [formatLoop]
+    exact finv_step st done x true h (hok x List.mem_cons_self)
+  | x :: y :: rest, st, done, h, hok => by
+    simp only [formatLoop]
+    have := finv_loop (y :: rest) (formatStep st x false) (done ++ [x])
+      (finv_step st done x false h (hok x List.mem_cons_self)) (fun it hit => hok it (List.mem_cons_of_mem _ hit))
+    simpa using this
+
+/-- every node list `update_with_new_values` can produce is well-formed: plain nodes hold numbers, jump shortcuts
+    hold only jumps, other shortcuts only numbers (so "jumps stay jumps": a `None` is never left as a plain node,
+    which would print nothing) -/
+theorem allOk_pass (scs : List (Int × Sc)) (vals : List Leaf) :
+    AllOk (expandShortcuts (bindShortcuts scs vals) ⟨[], false, 0, 0⟩).out := by
+  have hb := bind_inv vals scs (vals.map (fun v => (v, none))) (by
+    intro q hq r hr
+    simp only [List.mem_map] at hq
+    obtain ⟨v, _, rfl⟩ := hq
+    simp at hr)
+  exact allOk_expandShortcuts _ _ hb.2 (by intro it hit; simp at hit)
+
+theorem mem_pop (items : List Item) (it : Item) (h : it ∈ popTrailingJump items) : it ∈ items := by
+  unfold popTrailingJump at h
+  split at h
+  · split at h
+    · rw [List.dropLast_eq_take] at h; exact List.mem_of_mem_take h
+    · exact h
+  · exact h
+
+theorem allOk_update (scs : List (Int × Sc)) (vals : List Leaf) :
+    ∀ it ∈ updateWithNewValues scs vals, ItemOk it := by
+  intro it hit
+  unfold updateWithNewValues at hit
+  split at hit
+  · simp at hit
+  · exact allOk_pass scs vals it (List.mem_reverse.mp (mem_pop _ it hit))
+
+theorem popped_none (items : List Item) (h : ∀ it ∈ items, ItemOk it) : ∀ l ∈ poppedLeaves items, l.val = none := by
+  intro l hl
+  unfold poppedLeaves at hl
+  split at hl
+  · rename_i sid s hlast
+    split at hl
+    · rename_i hcond
+      simp only [Bool.and_eq_true, beq_iff_eq] at hcond
+      have hmem : Item.sc sid s ∈ items := List.mem_of_getLast? hlast
+      exact (h _ hmem).1 hcond.1 l hl
+    · simp at hl
+  · simp at hl
+
+/-- "the written list reads as the values": the words `ListNode.format` writes after
+    `update_with_new_values scs vals` are MCNP entries, MCNP's reader accepts them, and what it reads agrees with
+    `vals` position by position within the library tolerance — numbers as numbers, jumps as jumps, and only
+    trailing jumps (defaults) may be left unwritten -/
+def Recompresses (scs : List (Int × Sc)) (vals : List Leaf) : Prop :=
+  ∃ es vs, entries (MontePyVerif.Model.ListNode.format (updateWithNewValues scs vals)).words = some es ∧
+    expand es = some vs ∧ matchesAll vs (vals.map (·.val)) = true
+
+/-- **C08_recompress.** For ALL original shortcut lists (any state) and ALL new value lists. -/
+theorem C08_recompress (scs : List (Int × Sc)) (vals : List Leaf) : Recompresses scs vals := by
+  have hok := allOk_update scs vals
+  have hinv : FInv (MontePyVerif.Model.ListNode.format (updateWithNewValues scs vals)) ([] ++ updateWithNewValues scs vals) :=
+    finv_loop _ _ [] ⟨St.init, by simp [runW], rfl, by simp [St.init, flatten, MatchL], by simp⟩ hok
+  obtain ⟨S, h1, h2, h3, _⟩ := hinv
+  rw [runW_entries] at h1
+  cases hes : entries (MontePyVerif.Model.ListNode.format (updateWithNewValues scs vals)).words with
+  | none => simp [hes] at h1
+  | some es =>
+    rw [hes] at h1
+    simp only at h1
+    refine ⟨es, S.out, hes, ?_, ?_⟩
+    · simp [expand, h1, h2]
+    · have hci := C08_consume_inv scs vals
+      have hpop := popped_none _ (fun it hit => allOk_pass scs vals it (List.mem_reverse.mp hit))
+      rw [← hci]
+      simp only [List.nil_append] at h3
+      simp only [List.map_append]
+      exact matchesAll_of_MatchL _ _ _ h3 (by
+        intro z hz
+        simp only [List.mem_map] at hz
+        obtain ⟨l, hl, rfl⟩ := hz
+        exact hpop l hl)
+
+/-- **C08_grow_shrink.** Insertion of a value node at any position and deletion at any position (a cell added or
+    removed), after any state of the list: the written list still reads as the values. -/
+theorem C08_grow_shrink (scs : List (Int × Sc)) (vals : List Leaf) (i : Nat) (x : Leaf) :
+    Recompresses scs (vals.take i ++ x :: vals.drop i) ∧ Recompresses scs (vals.eraseIdx i) :=
+  ⟨C08_recompress _ _, C08_recompress _ _⟩
+
+/-- every node list `update_with_new_values` produces is well-formed -/
+theorem C08_wellformed (scs : List (Int × Sc)) (vals : List Leaf) :
+    ∀ it ∈ updateWithNewValues scs vals, ItemOk it := allOk_update scs vals
+
+/-- local correctness of `ShortcutNode.format` (alias of `sound_format`) -/
+theorem C08_format_sound (s : Sc) (carried : Option Rat) (S : St) (hok : ScOk s) (hp : S.pend = none)
+    (hc : ∀ c, carried = some c → S.prev = some c) :
+    Sound (MontePyVerif.Model.Shortcut.format s carried).words (MontePyVerif.Model.Shortcut.format s carried).tail
+      s.nodes S := sound_format s carried S hok hp hc
+
+/-- a repeat run of two 2s (used for non-vacuity) -/
+def exampleRun : Sc :=
+  { orphanJump with kind := Kind.rep, nodes := [⟨0, some 2, 0, "", "", false, false⟩, ⟨1, some 2, 0, "", "", false, false⟩] }
+
+/-- non-vacuity of `C08_format_sound`: its hypotheses hold for a repeat run of two 2s continuing a carried 2,
+    read from the Spec state after the word `2` -/
+example : Sound (MontePyVerif.Model.Shortcut.format exampleRun (some 2)).words
+    (MontePyVerif.Model.Shortcut.format exampleRun (some 2)).tail exampleRun.nodes ⟨[Val.num 2], some 2, none⟩ :=
+  C08_format_sound exampleRun (some 2) ⟨[Val.num 2], some 2, none⟩
+    (by constructor <;> simp [exampleRun, orphanJump]) rfl (by simp)
+
+open MontePyVerif.Model.ShortcutParse
+
+/-! ## Parse-time expansion agrees with MCNP's reading -/
+
+def PTok.toEntry : PTok → Entry
+  | .num x => Entry.num x
+  | .rep n => Entry.rep n
+  | .mul x => Entry.mul x
+  | .jmp n => Entry.jmp n
+  | .lin n => Entry.lin n
+  | .log n => Entry.log n
+
+def PVal.toVal : PVal → Val
+  | .num x => Val.num x
+  | .jump => Val.jump
+  | .logv a b n k => Val.logv a b n k
+
+/-- the token is a word of the grammar G of DESIGN 5.2: a count, when written, is `1 … 999` (never `0`) -/
+def PTok.inG : PTok → Bool
+  | .rep (some 0) | .jmp (some 0) | .lin (some 0) | .log (some 0) => false
+  | _ => true
+
+def PRel (acc : List PItem) (S : St) : Prop :=
+  S.pend = none ∧ (flatRevP acc).map PVal.toVal = S.out ∧ lastNum acc = S.prev
+
+def finish (s : St) : Option (List Val) := if s.pend.isNone then some s.out else none
+
+theorem flatP_reverse (acc : List PItem) : flatP acc.reverse = flatRevP acc := by
+  induction acc with
+  | nil => rfl
+  | cons x rest ih => simp [flatP, flatRevP] at *; rw [ih]
+
+theorem absorb_flat (acc : List PItem) : flatRevP (absorb acc).2 ++ (absorb acc).1 = flatRevP acc := by
+  cases acc with
+  | nil => simp [absorb, flatRevP]
+  | cons it rest =>
+    cases it with
+    | value x => simp [absorb, flatRevP, PItem.vals]
+    | sc k ns => simp [absorb, flatRevP]
+
+theorem getD_pos (n : Option Nat) (h : n ≠ some 0) : ∃ m, n.getD 1 = m + 1 := by
+  cases n with
+  | none => exact ⟨0, rfl⟩
+  | some k =>
+    cases k with
+    | zero => exact absurd rfl h
+    | succ m => exact ⟨m, rfl⟩
+
+theorem lastNum_snoc (ns : List PVal) (x : Rat) (rest : List PItem) (k : PKind) :
+    lastNum (PItem.sc k (ns ++ [PVal.num x]) :: rest) = some x := by
+  simp [lastNum, PItem.vals]
+
+theorem rel_repeat (acc acc' : List PItem) (S : St) (n : Option Nat) (h : PRel acc S) (hn : n ≠ some 0)
+    (he : expandRepeat acc n = some acc') :
+    ∃ S', step S (Entry.rep n) = some S' ∧ PRel acc' S' := by
+  obtain ⟨out, prev, pend⟩ := S
+  obtain ⟨h1, h2, h3⟩ := h
+  simp only at h1 h2 h3
+  subst h1
+  unfold expandRepeat at he
+  split at he
+  · simp at he
+  · rename_i a ha
+    simp only [Option.some.injEq] at he
+    subst he
+    rw [ha] at h3
+    subst h3
+    obtain ⟨m, hm⟩ := getD_pos n hn
+    refine ⟨⟨out ++ List.replicate (n.getD 1) (Val.num a), some a, none⟩, by simp [step], rfl, ?_, ?_⟩
+    · simp only [flatRevP, PItem.vals, ← List.append_assoc, absorb_flat, List.map_append, h2, List.map_replicate,
+        PVal.toVal]
+    · simp only [hm, List.replicate_succ', ← List.append_assoc]
+      exact lastNum_snoc _ a _ _
+
+theorem rel_multiply (acc acc' : List PItem) (S : St) (x : Rat) (h : PRel acc S)
+    (he : expandMultiply acc x = some acc') :
+    ∃ S', step S (Entry.mul x) = some S' ∧ PRel acc' S' := by
+  obtain ⟨out, prev, pend⟩ := S
+  obtain ⟨h1, h2, h3⟩ := h
+  simp only at h1 h2 h3
+  subst h1
+  unfold expandMultiply at he
+  split at he
+  · simp at he
+  · rename_i a ha
+    simp only [Option.some.injEq] at he
+    subst he
+    rw [ha] at h3
+    subst h3
+    refine ⟨⟨out ++ [Val.num (a * x)], some (a * x), none⟩, by simp [step], rfl, ?_, lastNum_snoc _ _ _ _⟩
+    simp only [flatRevP, PItem.vals, ← List.append_assoc, absorb_flat, List.map_append, h2, List.map_cons,
+      List.map_nil, PVal.toVal]
+
+theorem rel_jump (acc : List PItem) (S : St) (n : Option Nat) (h : PRel acc S) (hn : n ≠ some 0) :
+    ∃ S', step S (Entry.jmp n) = some S' ∧ PRel (expandJump acc n) S' := by
+  obtain ⟨out, prev, pend⟩ := S
+  obtain ⟨h1, h2, h3⟩ := h
+  simp only at h1 h2 h3
+  subst h1
+  obtain ⟨m, hm⟩ := getD_pos n hn
+  refine ⟨⟨out ++ List.replicate (n.getD 1) Val.jump, none, none⟩, by simp [step], rfl, ?_, ?_⟩
+  · simp only [expandJump, flatRevP, PItem.vals, List.map_append, h2, List.map_replicate, PVal.toVal]
+  · simp [expandJump, lastNum, PItem.vals, hm, List.replicate_succ']
+
+theorem lin_alg' (b e D k : Rat) : b + (e - b) / D * k = b + (e - b) * k / D := by grind
+
+theorem rel_interp (acc acc' : List PItem) (S : St) (n : Option Nat) (isLog : Bool) (e : Rat) (h : PRel acc S)
+    (he : expandInterpolate acc n isLog e = some acc') :
+    ∃ S1 S', step S (if isLog then Entry.log n else Entry.lin n) = some S1 ∧ step S1 (Entry.num e) = some S' ∧
+      PRel acc' S' := by
+  obtain ⟨out, prev, pend⟩ := S
+  obtain ⟨h1, h2, h3⟩ := h
+  simp only at h1 h2 h3
+  subst h1
+  unfold expandInterpolate at he
+  split at he
+  · simp at he
+  · rename_i b hb
+    rw [hb] at h3
+    subst h3
+    simp only at he
+    split at he
+    · simp at he
+    · rename_i hdom
+      simp only [Option.some.injEq] at he
+      subst he
+      refine ⟨⟨out, some b, some (b, n.getD 1, isLog)⟩, ⟨out ++ between b e (n.getD 1) isLog ++ [Val.num e], some e, none⟩,
+        ?_, ?_, rfl, ?_, ?_⟩
+      · cases isLog <;> simp [step]
+      · simp only [step]
+        simp only [hdom]
+        simp
+      · simp only [flatRevP, PItem.vals, ← List.append_assoc, absorb_flat, List.map_append, h2, List.map_cons,
+          List.map_nil, PVal.toVal, List.map_map, between]
+        congr 2
+        apply List.map_congr_left
+        intro i _
+        cases isLog
+        · simp [PVal.toVal, lin_alg']
+        · simp [PVal.toVal]
+      · exact lastNum_snoc _ e _ _
+
+
+theorem step_pend_nonnum (S : St) (p : Rat × Nat × Bool) (hp : S.pend = some p) (t : Entry)
+    (ht : ∀ x, t ≠ Entry.num x) : step S t = none := by
+  cases t with
+  | num x => exact absurd rfl (ht x)
+  | rep n => simp [step, hp]
+  | mul x => simp [step, hp]
+  | jmp n => simp [step, hp]
+  | lin n => simp [step, hp]
+  | log n => simp [step, hp]
+
+theorem step_interp_none (S : St) (isLog : Bool) (n : Option Nat) (hp : S.pend = none) (hprev : S.prev = none) :
+    step S (if isLog then Entry.log n else Entry.lin n) = none := by
+  cases isLog <;> simp [step, hp, hprev]
+
+theorem step_interp_some (S : St) (isLog : Bool) (n : Option Nat) (a : Rat) (hp : S.pend = none)
+    (hprev : S.prev = some a) :
+    step S (if isLog then Entry.log n else Entry.lin n) = some ⟨S.out, some a, some (a, n.getD 1, isLog)⟩ := by
+  cases isLog <;> simp [step, hp, hprev]
+
+/-- an interpolation token: the model looks ahead for the closing number, the Spec keeps it pending -/
+theorem sim_interp (isLog : Bool) (n : Option Nat) (rest : List PTok) (acc : List PItem) (S : St) (h : PRel acc S)
+    (ih : ∀ e ts acc' S', rest = PTok.num e :: ts → PRel acc' S' →
+      (parseAux ts acc').map (fun items => (flatP items).map PVal.toVal) = (run (ts.map PTok.toEntry) S').bind finish) :
+    (match rest with
+      | PTok.num e :: ts => (match expandInterpolate acc n isLog e with
+        | some acc' => parseAux ts acc'
+        | none => none)
+      | _ => none).map (fun items => (flatP items).map PVal.toVal)
+    = (run ((if isLog then Entry.log n else Entry.lin n) :: rest.map PTok.toEntry) S).bind finish := by
+  simp only [run]
+  cases hprev : S.prev with
+  | none =>
+    rw [step_interp_none S isLog n h.1 hprev]
+    have hl : lastNum acc = none := by rw [h.2.2, hprev]
+    cases rest with
+    | nil => simp
+    | cons t ts =>
+      cases t <;> simp [expandInterpolate, hl]
+  | some a =>
+    rw [step_interp_some S isLog n a h.1 hprev]
+    simp only
+    cases rest with
+    | nil => simp [run, finish]
+    | cons t ts =>
+      cases t with
+      | num e =>
+        simp only [List.map_cons, PTok.toEntry, run]
+        cases he : expandInterpolate acc n isLog e with
+        | none =>
+          simp only [Option.map_none]
+          have hl : lastNum acc = some a := by rw [h.2.2, hprev]
+          unfold expandInterpolate at he
+          simp only [hl] at he
+          split at he
+          · rename_i hdom
+            simp only [step, hdom, if_true, Option.bind_none]
+          · simp at he
+        | some acc' =>
+          obtain ⟨S1, S', g1, g2, g3⟩ := rel_interp acc acc' S n isLog e h he
+          rw [step_interp_some S isLog n a h.1 hprev] at g1
+          simp only [Option.some.injEq] at g1
+          subst g1
+          rw [g2]
+          exact ih e ts acc' S' rfl g3
+      | rep m => simp [PTok.toEntry, run, step]
+      | mul x => simp [PTok.toEntry, run, step]
+      | jmp m => simp [PTok.toEntry, run, step]
+      | lin m => simp [PTok.toEntry, run, step]
+      | log m => simp [PTok.toEntry, run, step]
+
+
+theorem parseAux_interp (isLog : Bool) (n : Option Nat) (rest : List PTok) (acc : List PItem) :
+    parseAux ((if isLog then PTok.log n else PTok.lin n) :: rest) acc =
+      (match rest with
+      | PTok.num e :: ts => (match expandInterpolate acc n isLog e with
+        | some acc' => parseAux ts acc'
+        | none => none)
+      | _ => none) := by
+  cases isLog <;> (cases rest with
+    | nil => simp [parseAux]
+    | cons t ts => cases t <;> first | rfl | simp [parseAux])
+
+theorem rel_num (acc : List PItem) (S : St) (x : Rat) (h : PRel acc S) :
+    ∃ S', step S (Entry.num x) = some S' ∧ PRel (PItem.value x :: acc) S' := by
+  obtain ⟨out, prev, pend⟩ := S
+  obtain ⟨h1, h2, h3⟩ := h
+  simp only at h1 h2 h3
+  subst h1
+  exact ⟨⟨out ++ [Val.num x], some x, none⟩, by simp [step], rfl,
+    by simp [flatRevP, PItem.vals, h2, PVal.toVal], by simp [lastNum, PItem.vals]⟩
+
+theorem sim : ∀ (k : Nat) (ts : List PTok) (acc : List PItem) (S : St), ts.length ≤ k → PRel acc S →
+    (∀ t ∈ ts, PTok.inG t = true) →
+    (parseAux ts acc).map (fun items => (flatP items).map PVal.toVal) = (run (ts.map PTok.toEntry) S).bind finish := by
+  intro k
+  induction k with
+  | zero =>
+    intro ts acc S hlen h _
+    have : ts = [] := List.eq_nil_of_length_eq_zero (Nat.le_zero.mp hlen)
+    subst this
+    simp [parseAux, run, finish, h.1, flatP_reverse, h.2.1]
+  | succ k ih =>
+    intro ts acc S hlen h hg
+    cases ts with
+    | nil => simp [parseAux, run, finish, h.1, flatP_reverse, h.2.1]
+    | cons t ts =>
+      have hlen' : ts.length ≤ k := by simp at hlen; omega
+      have hg' : ∀ t' ∈ ts, PTok.inG t' = true := fun t' ht' => hg t' (List.mem_cons_of_mem _ ht')
+      have hgt := hg t List.mem_cons_self
+      cases t with
+      | num x =>
+        obtain ⟨S', g1, g2⟩ := rel_num acc S x h
+        simp only [parseAux, List.map_cons, PTok.toEntry, run, g1]
+        exact ih ts _ S' hlen' g2 hg'
+      | jmp n =>
+        have hn : n ≠ some 0 := by intro hn; subst hn; simp [PTok.inG] at hgt
+        obtain ⟨S', g1, g2⟩ := rel_jump acc S n h hn
+        simp only [parseAux, List.map_cons, PTok.toEntry, run, g1]
+        exact ih ts _ S' hlen' g2 hg'
+      | rep n =>
+        have hn : n ≠ some 0 := by intro hn; subst hn; simp [PTok.inG] at hgt
+        simp only [parseAux, List.map_cons, PTok.toEntry, run]
+        cases he : expandRepeat acc n with
+        | none =>
+          have : S.prev = none := by
+            unfold expandRepeat at he
+            split at he
+            · rename_i hl; rw [← h.2.2]; exact hl
+            · simp at he
+          simp [step, h.1, this]
+        | some acc' =>
+          obtain ⟨S', g1, g2⟩ := rel_repeat acc acc' S n h hn he
+          simp only [g1]
+          exact ih ts _ S' hlen' g2 hg'
+      | mul x =>
+        simp only [parseAux, List.map_cons, PTok.toEntry, run]
+        cases he : expandMultiply acc x with
+        | none =>
+          have : S.prev = none := by
+            unfold expandMultiply at he
+            split at he
+            · rename_i hl; rw [← h.2.2]; exact hl
+            · simp at he
+          simp [step, h.1, this]
+        | some acc' =>
+          obtain ⟨S', g1, g2⟩ := rel_multiply acc acc' S x h he
+          simp only [g1]
+          exact ih ts _ S' hlen' g2 hg'
+      | lin n =>
+        have := sim_interp false n ts acc S h (fun e ts' acc' S' hts hr =>
+          ih ts' acc' S' (by subst hts; simp at hlen'; omega) hr
+            (fun t' ht' => hg' t' (by subst hts; exact List.mem_cons_of_mem _ ht')))
+        have hp := parseAux_interp false n ts acc
+        simp only [Bool.false_eq_true, if_false] at this hp
+        rw [hp]
+        simpa [PTok.toEntry] using this
+      | log n =>
+        have := sim_interp true n ts acc S h (fun e ts' acc' S' hts hr =>
+          ih ts' acc' S' (by subst hts; simp at hlen'; omega) hr
+            (fun t' ht' => hg' t' (by subst hts; exact List.mem_cons_of_mem _ ht')))
+        have hp := parseAux_interp true n ts acc
+        simp only [if_true] at this hp
+        rw [hp]
+        simpa [PTok.toEntry] using this
+
+/-- **C08_expand.** For every token list of the grammar G (every kind, every count ≥ 1 or omitted, adjacent
+    shortcuts, shortcuts at either end): the parser accepts the list exactly when MCNP's reader does, and then the
+    values of the (virtual) value nodes, in list order, ARE what MCNP reads, position by position — numbers (linear
+    interpolates exactly, on rationals), jumps as jumps, logarithmic interpolates as the same symbolic value
+    `logv a b n k` (whose double the correspondence checks against the defining relation). -/
+theorem C08_expand (ts : List PTok) (hG : ∀ t ∈ ts, PTok.inG t = true) :
+    (parseList ts).map (fun items => (flatP items).map PVal.toVal) = expand (ts.map PTok.toEntry) := by
+  have := sim ts.length ts [] St.init (Nat.le_refl _) ⟨rfl, rfl, rfl⟩ hG
+  unfold parseList
+  rw [this]
+  unfold expand finish
+  cases run (ts.map PTok.toEntry) St.init <;> rfl
+
+/-- non-vacuity: a list of G with every kind, adjacent shortcuts and shortcuts at both ends -/
+example : ∀ t ∈ [PTok.jmp none, PTok.num 1, PTok.rep (some 2), PTok.mul 3, PTok.lin (some 2), PTok.num 12,
+    PTok.log none, PTok.num 48, PTok.rep none, PTok.jmp (some 2)], PTok.inG t = true := by decide
+
+/-- the count `0` is outside G for a reason: after a `0R` that follows a shortcut the code finds no value to
+    continue from (it rejects the list), while MCNP's reading would continue from the repeated entry -/
+theorem C08_expand_zero_count_refuted :
+    ¬ ((parseList [PTok.num 1, PTok.rep none, PTok.rep (some 0), PTok.rep none]).map
+        (fun items => (flatP items).map PVal.toVal)
+      = expand ([PTok.num 1, PTok.rep none, PTok.rep (some 0), PTok.rep none].map PTok.toEntry)) := by decide
+
+/-! ## Own nodes standing in for copies (`_keep_own_nodes`) -/
+
+theorem keepZip_vals : ∀ (own vals : List Leaf), (keepZip own vals).map (·.val) = vals.map (·.val)
+  | _, [] => by cases ‹List Leaf› <;> simp [keepZip]
+  | [], v :: vs => by simp [keepZip]
+  | o :: own, v :: vs => by
+    simp only [keepZip, List.map_cons, keepZip_vals own vs, List.cons.injEq, and_true]
+    split
+    · rename_i h
+      simp only [Bool.and_eq_true, beq_iff_eq] at h
+      exact h.2
+    · rfl
+
+/-- standing in never changes a value: the list is rebuilt from nodes that hold exactly the new values -/
+theorem C08_keep_own_values (own vals : List Leaf) :
+    (keepOwnNodes own vals).map (·.val) = vals.map (·.val) := by
+  unfold keepOwnNodes
+  split
+  · rfl
+  · exact keepZip_vals own vals
+
+/-- **C08_recompress for the whole of `update_with_new_values`** (own nodes standing in for copies of themselves,
+    as the data-block importances hand them in): for ALL shortcut lists, ALL own node lists and ALL new value
+    lists the written words read as the new values. -/
+theorem C08_recompress_full (scs : List (Int × Sc)) (own vals : List Leaf) :
+    ∃ es vs, entries (MontePyVerif.Model.ListNode.format (updateWithNewValuesFull scs own vals)).words = some es ∧
+      expand es = some vs ∧ matchesAll vs (vals.map (·.val)) = true := by
+  obtain ⟨es, vs, h1, h2, h3⟩ := C08_recompress scs (keepOwnNodes own vals)
+  exact ⟨es, vs, h1, h2, by rw [← C08_keep_own_values own vals]; exact h3⟩
+
+/-- an unedited list handed in as copies (any relabelling `copy` that keeps type and value, with fresh identities)
+    is rebuilt from its own nodes, all of them, in order — so every shortcut can be bound again and tokens, paddings
+    and comments stay -/
+theorem C08_keep_own_unedited (own : List Leaf) (copy : Leaf → Leaf)
+    (hcopy : ∀ o, (copy o).ty = o.ty ∧ (copy o).val = o.val)
+    (hfresh : (own.map copy).any (fun v => own.any (fun o => o.id == v.id)) = false) :
+    keepOwnNodes own (own.map copy) = own := by
+  unfold keepOwnNodes
+  rw [hfresh]
+  simp only [Bool.false_eq_true, if_false]
+  clear hfresh
+  induction own with
+  | nil => rfl
+  | cons o rest ih =>
+    simp only [List.map_cons, keepZip, (hcopy o).1, (hcopy o).2, beq_self_eq_true, Bool.and_self, if_true, ih]
 
 end MontePyVerif.C08
